@@ -10,9 +10,10 @@ import common
 PROG = "inplace,grow,alter,inplace,finalize"
 
 
-def run_schedule(k, mode):
+def run_schedule(k, mode, wait_ms=60):
     try:
-        p = subprocess.run([common.RT, "conc", str(k), mode], stdout=subprocess.PIPE, stderr=subprocess.STDOUT, timeout=30)
+        import os
+        p = subprocess.run([common.RT, "conc", str(k), mode], stdout=subprocess.PIPE, stderr=subprocess.STDOUT, timeout=60, env=dict(os.environ, DYNASM_VERIF_WAIT_MS=str(wait_ms)))
         return p.stdout.decode(errors="replace").strip().split("\n")
     except subprocess.TimeoutExpired:
         return ["deadlock (harness timeout)"]
@@ -46,11 +47,23 @@ def explore(run, focus, thorough):
         reported.add((kind, key))
         run.violation("failing-input" if found else "broken-correspondence", {"kind": kind, "at": key}, what, payload, found_input=found)
 
+    def suspicious(lines, answers):
+        return any(a.startswith(("mismatch", "stuck", "bad-op")) for a in answers) or len(answers) < len(lines) or any(l.startswith("deadlock") for l in lines) \
+            or not any(l == "end" for l in lines)
+
     for (k, mode), lines in results:
         stats["schedules"] += 1
         stats["events"] += len(lines)
-        payload = {"stream": "conc", "schedule": [k, mode], "trace": lines}
         answers = replay_on_model(lines)
+        # blocking is observed by timeout: a loaded machine can make a granted lock look blocked. A schedule that does not fit the model is
+        # run again with much longer waits; it is reported only if the disagreement persists (a real defect does, a scheduling hiccup does not)
+        for wait_ms in (400, 1500):
+            if not suspicious(lines, answers):
+                break
+            stats["reruns"] = stats.get("reruns", 0) + 1
+            lines = run_schedule(k, mode, wait_ms)
+            answers = replay_on_model(lines)
+        payload = {"stream": "conc", "schedule": [k, mode], "trace": lines}
         last_hook = "start"
         last_cur = None
         last_returned = 0
